@@ -376,114 +376,8 @@ func findPathPSEdge(ed Edge, goal, avoid func(ssa.Instruction) bool) []string {
 	return findPathPSx(Point{ed.From, len(ed.From.Instrs) - 1}, ed.Succ, goal, avoid, nil)
 }
 
-func findPathPSx(from Point, firstSucc int, goal, avoid func(ssa.Instruction) bool, stopAt *ssa.BasicBlock) []string {
-	type state struct {
-		b    *ssa.BasicBlock
-		from int
-		env  string
-	}
-	type item struct {
-		st   state
-		vals map[*ssa.Phi]bool
-		prev *item
-	}
-	encode := func(m map[*ssa.Phi]bool) string {
-		var ks []string
-		for k, v := range m {
-			ks = append(ks, fmt.Sprintf("%s=%v", k.Name(), v))
-		}
-		sortStrings(ks)
-		return strings.Join(ks, ",")
-	}
-	start := &item{st: state{from.B, from.I + 1, ""}, vals: map[*ssa.Phi]bool{}}
-	seen := map[state]bool{}
-	queue := []*item{start}
-	for len(queue) > 0 {
-		it := queue[0]
-		queue = queue[1:]
-		blocked, hit := false, false
-		for i := it.st.from; i < len(it.st.b.Instrs); i++ {
-			in := it.st.b.Instrs[i]
-			if avoid != nil && avoid(in) {
-				blocked = true
-				break
-			}
-			if goal(in) {
-				hit = true
-				break
-			}
-		}
-		if hit {
-			var w []string
-			for x := it; x != nil; x = x.prev {
-				w = append([]string{fmt.Sprintf("b%d", x.st.b.Index)}, w...)
-			}
-			return w
-		}
-		if blocked {
-			continue
-		}
-		// successors
-		var allowed []int
-		for k := range it.st.b.Succs {
-			allowed = append(allowed, k)
-		}
-		if it == start && firstSucc >= 0 {
-			allowed = []int{firstSucc}
-		} else if ifi := blockIf(it.st.b); ifi != nil {
-			inner, flip := stripNot(ifi.Cond)
-			if ph, ok := inner.(*ssa.Phi); ok {
-				if v, known := it.vals[ph]; known {
-					if v != flip {
-						allowed = []int{0}
-					} else {
-						allowed = []int{1}
-					}
-				}
-			}
-		}
-		for _, k := range allowed {
-			s := it.st.b.Succs[k]
-			nv := map[*ssa.Phi]bool{}
-			for kk, vv := range it.vals {
-				nv[kk] = vv
-			}
-			// entering s from it.st.b: resolve its bool phis
-			pi := -1
-			for i, pr := range s.Preds {
-				if pr == it.st.b {
-					pi = i
-				}
-			}
-			for _, in := range s.Instrs {
-				ph, ok := in.(*ssa.Phi)
-				if !ok {
-					break
-				}
-				if b, isB := ph.Type().Underlying().(*types.Basic); !isB || b.Kind() != types.Bool {
-					continue
-				}
-				delete(nv, ph)
-				if pi >= 0 {
-					e := ph.Edges[pi]
-					if c, ok := e.(*ssa.Const); ok && c.Value != nil && c.Value.Kind() == constant.Bool {
-						nv[ph] = constant.BoolVal(c.Value)
-					} else if p2, ok := e.(*ssa.Phi); ok {
-						if v, known := it.vals[p2]; known {
-							nv[ph] = v
-						}
-					}
-				}
-			}
-			st := state{s, 0, encode(nv)}
-			if seen[st] {
-				continue
-			}
-			seen[st] = true
-			queue = append(queue, &item{st: st, vals: nv, prev: it})
-		}
-	}
-	return nil
+func findPathPSx(from Point, firstSucc int, goal, avoid func(ssa.Instruction) bool, _ *ssa.BasicBlock) []string {
+	return searchPath(from, firstSucc, goal, avoid, nil)
 }
 
 func sortStrings(s []string) {
